@@ -1,7 +1,8 @@
-\* thorough: every site with <= 2 lines, half of the three-line sites (which half depends on -seed)
+\* thorough: every site with <= 3 lines
 CONSTANT MaxRules = 3
 CONSTANT Sample2 = 1
-CONSTANT Sample3 = 2
+CONSTANT Sample3 = 1
+CONSTANT BaseMode = "cleaned"
 SPECIFICATION Spec
 INVARIANT TypeOK
 INVARIANT SetupInv
